@@ -15,7 +15,7 @@ to the providers, every context paused with a completed, empty batch.
 Known findings the monitor classifies:
 * F-gen-6  — the plain export of a state with a context that is not PAUSED / batch-COMPLETED is
              rejected by the module's own `ValidateGenesis` (so `InitGenesis` panics);
-* F-gen-11 — a plain export that *is* accepted drops the earned fees (and nothing pays them out):
+* F-gen-14 — a plain export that *is* accepted drops the earned fees (and nothing pays them out):
              the coins stay in the request escrow of the re-imported chain, owed to nobody.
 -/
 import Irismod.Model.ServiceGenesis
@@ -48,12 +48,15 @@ def registrySame (pre post : State) : Bool :=
   sameMap pre.defs post.defs && sameMap pre.binds post.binds && sameMap pre.owners post.owners &&
   sameSet pre.ownerProv post.ownerProv && sameMap pre.wd post.wd
 
-/-- what the consumer `a` is refunded by the prepare step: the fees of the active requests of its contexts -/
-def refundTo (s : State) (a : Addr) (d : Denom) : Nat :=
-  sumList (s.active.map fun rid =>
+/-- what the consumer `a` is refunded for the requests `l`: the fees of those whose context it owns -/
+def refundToL (s : State) (l : List ReqId) (a : Addr) (d : Denom) : Nat :=
+  sumList (l.map fun rid =>
     match getRequest s rid with
     | some (rq, rc) => if rc.consumer = a ∧ rq.feeDenom = d then rq.feeAmt else 0
     | none => 0)
+
+/-- what the consumer `a` is refunded by the prepare step: the fees of the active requests of its contexts -/
+def refundTo (s : State) (a : Addr) (d : Denom) : Nat := refundToL s s.active a d
 
 /-- what the escrow owes: fees of open requests + earned fees -/
 def liabilities (s : State) (d : Denom) : Nat := activeFee s d + earnedSum s d
@@ -74,7 +77,7 @@ def checkReimport (ds : List Denom) (pre post : State) (ok : Bool) : List Fail :
     (if balsSameExcept ds pre post [] then [] else [{ clause := "reimport-moved-coins" : Fail }]) ++
     -- the money behind the dropped objects: open-request fees and earned fees must not be left without a claim
     (if ds.all (fun d => liabilities pre d == 0) then []
-     else [{ clause := "dropped-liabilities-stranded", cls := "F-gen-11" : Fail }])
+     else [{ clause := "dropped-liabilities-stranded", cls := "F-gen-14" : Fail }])
 
 /-- `service prep_reimport`: `PrepForZeroHeightGenesis`, then wipe + `InitGenesis(ExportGenesis)` -/
 def checkPrepReimport (ds : List Denom) (pre post : State) (ok : Bool) : List Fail :=
